@@ -379,12 +379,12 @@ def check(ctx):
         else:
             add_case("%s %s %s %s" % (op, C(a), C(b), C(n)), txt, res, shape)
 
-    def case_pow():
-        a, b, shape = gen_interval(rng)
+    def case_pow(fixed=None):
+        a, b, shape = gen_interval(rng) if fixed is None else (fixed[0], fixed[1], "twin")
         I = operand(a, b)
         if I is None:
             return
-        y = rng.choice(EXPONENTS)
+        y = rng.choice(EXPONENTS) if fixed is None else fixed[2]
         txt = "%s ^ %s" % (itext(a, b), y.text)
         if not fresh(txt):
             return
@@ -398,6 +398,20 @@ def check(ctx):
         wf(txt, res)
         enclosure(txt, res, I, "^", lambda x: (x, yv), "x ^ %s" % y.text, expect_reject=must_reject or None)
         add_case("pow %s %s %s" % (C(a), C(b), C(y)), txt, res, shape)
+
+    def case_pow_twins():
+        """operand triples that differ only by -1 versus -2 in a bound or in the exponent, evaluated one after the other in both
+        orders (the two integers CPython hashes alike): each power must enclose ITS OWN operand's image"""
+        lo, hi = rng.choice([(2, 4), (1, 3), (-4, -2), (3, 7), (-3, -1)]), None
+        a, b = sc_int(lo[0]), sc_int(lo[1])
+        first, second = rng.sample([sc_int(-1), sc_int(-2)], 2)
+        case_pow((a, b, first))
+        case_pow((a, b, second))
+        e = rng.choice([sc_int(3), sc_int(2), sc_int(5)])
+        up = sc_int(rng.choice([3, 4, 6]))
+        l1, l2 = rng.sample([sc_int(-1), sc_int(-2)], 2)
+        case_pow((l1, up, e))
+        case_pow((l2, up, e))
 
     def case_unary():
         a, b, shape = gen_interval(rng)
@@ -658,7 +672,7 @@ def check(ctx):
         add_case("%s %s %s" % (form, C(x), C(y)), txt, res, "pm")
 
     kinds = [(case_binop, 26), (case_pow, 18), (case_unary, 14), (case_log, 10), (case_cmp, 16),
-             (case_in, 5), (case_eq, 5), (case_eq_scalar, 3), (case_near_reversed, 2), (case_minmax, 6), (case_pm, 4)]
+             (case_in, 5), (case_eq, 5), (case_eq_scalar, 3), (case_near_reversed, 2), (case_pow_twins, 2), (case_minmax, 6), (case_pm, 4)]
     fns = [f for f, w in kinds for _ in range(w)]
 
     # corpus first: the two repaired defects and hand-picked edges, as plain text through the same oracles
